@@ -67,7 +67,7 @@ class Post:
 
 class PDict(dict):
     """dict with an ownership tag (module-level constants are 'global')"""
-    owner = 'fresh'; tag = None
+    owner = 'fresh'; tag = None; holder = None
 
 
 class Vec:
@@ -457,7 +457,13 @@ class Exec:
             for tt, vv in zip(t.elts, xs): s.assign(tt, vv, env)
         elif isinstance(t, ast.Subscript):
             o = s.eval(t.value, env); i = s.eval(t.slice, env)
-            s.note_write(o, "item assignment")
+            if isinstance(o, dict) and getattr(o, 'owner', 'fresh') != 'fresh' and not isinstance(o, Obj):
+                # store into a per-instance / module-level dict: recorded for the cache-coherence obligations (props.common.cache_coherence);
+                # the stored value is reachable from state that outlives the call from now on (escape): later writes to it are frame writes
+                s.__dict__.setdefault('cache_stores', []).append(dict(pc=list(s.pc), contracts=frozenset(k_ for k_ in (s.contracts or {})), tag=getattr(o, 'tag', None), owner=o.owner, key=i, value=v, holder=getattr(o, 'holder', None), cache=o))
+                _escape(v)
+            else:
+                s.note_write(o, "item assignment")
             if isinstance(o, Obj) and o.cls == '$Frame':
                 from . import iomodel
                 iomodel.frame_set(s, o, i, v, t)
@@ -859,6 +865,11 @@ class Exec:
                 except IndexError: raise Raised('IndexError', node=node)
             raise Unsupported("symbolic index into a tuple", node)
         if isinstance(b, dict):
+            if isinstance(i, (T, B)) and not b: raise Raised("KeyError", node=node)
+            if _has_term(i) and i not in b:
+                hit = _dict_find(s, b, i, node)
+                if hit is None: raise Raised("KeyError", node=node)
+                return hit[1]
             if isinstance(i, (T, B)): raise Unsupported("symbolic dict key", node)
             if i not in b: raise Raised("KeyError", node=node)
             return b[i]
@@ -1011,7 +1022,8 @@ class Exec:
             return r if isinstance(op, ast.Is) else not r
         if isinstance(op, (ast.In, ast.NotIn)):
             if isinstance(b, dict) and b and _has_term(a) and a not in b:
-                raise Unsupported("membership test of a symbolic key in a non-empty dict", node)
+                hit = _dict_find(s, b, a, node) is not None          # forks: the key equals one of the stored keys, or none of them
+                return hit if isinstance(op, ast.In) else not hit
             if isinstance(b, (set, frozenset, tuple, list, dict)) and not isinstance(a, (T, B)):
                 r = a in b
                 return r if isinstance(op, ast.In) else not r
@@ -1059,6 +1071,55 @@ class Exec:
             fs.append(tob(r))
         r = band(*fs)
         return r.a[0] if r.op == 'lit' else r
+
+
+def _escape(v, seen=None):
+    """v becomes reachable from an external container: its mutable parts are external from now on"""
+    seen = set() if seen is None else seen
+    if id(v) in seen: return
+    seen.add(id(v))
+    if isinstance(v, Obj):
+        if v.owner == 'fresh': v.owner = 'external'; v.tag = v.tag or ('cached ' + v.cls)
+        for x in v.f.values(): _escape(x, seen)
+    elif isinstance(v, (PList, Seq)):
+        if getattr(v, 'owner', 'fresh') == 'fresh':
+            v.owner = 'external'
+            if not v.tag: v.tag = 'list held by a cached value'
+        if isinstance(v, PList):
+            for x in v.items: _escape(x, seen)
+    elif isinstance(v, PDict):
+        if v.owner == 'fresh': v.owner = 'external'
+        for x in v.values(): _escape(x, seen)
+    elif isinstance(v, (tuple, list)):
+        for x in v: _escape(x, seen)
+
+
+def _key_eq(s, a, b):
+    """key a == key b as a formula (tuples component-wise; non-numeric components compared concretely); None if never equal"""
+    if isinstance(a, tuple) and isinstance(b, tuple):
+        if len(a) != len(b): return None
+        fs = []
+        for x, y in zip(a, b):
+            f = _key_eq(s, x, y)
+            if f is None: return None
+            fs.append(f)
+        return band(*fs)
+    if is_num(a) and is_num(b) and not isinstance(a, bool) and not isinstance(b, bool):
+        return eq(lift(a), lift(b))
+    if isinstance(a, (T, B)) or isinstance(b, (T, B)): return None
+    try: return TRUE if (type(a) is type(b) and a == b) else None
+    except Exception: return None
+
+
+def _dict_find(s, d, key, node=None):
+    """the entry of d whose key equals `key` on this path (forks on the equalities), or None"""
+    if not _has_term(key):
+        return (key, d[key]) if key in d else None
+    for k in list(d.keys()):
+        f = _key_eq(s, key, k)
+        if f is None: continue
+        if f is TRUE or s.decide(f, node): return (k, d[k])
+    return None
 
 
 def _has_term(v):
@@ -1490,10 +1551,12 @@ def explore(src, runner, contracts=None, pre=(), max_paths=400, setup=None):
             ex.raise_node = r.node
         except Ret as r:
             v = r.v; oc = 'return'
-        except TypeError as e:
-            # an uninterpreted (opaque) value reached arithmetic: the code is outside the modelled subset here (no verdict, not a crash)
-            if 'cannot lift' in str(e): raise Unsupported("an uninterpreted value is used as a number (%s)" % e)
-            raise
+        except (TypeError, AttributeError) as e:
+            # an uninterpreted value reached arithmetic, or a construct the value model does not cover (e.g. tuple() of a list of symbolic
+            # length): the code is outside the modelled subset here - no verdict (exit 3, native fallback), not a checker crash
+            import traceback as _tb
+            where = _tb.extract_tb(e.__traceback__)[-1]
+            raise Unsupported("the executor cannot interpret this code (%s: %s at %s:%d)" % (type(e).__name__, e, where.filename.split('/')[-1], where.lineno))
         for i in range(len(oracle), len(ex.taken)):
             t = ex.taken[i]
             if isinstance(t, tuple): continue          # forced: sibling infeasible
